@@ -440,7 +440,7 @@ def err_corpus(style, quick):
                 zl = "z-in-range" if -(2 ** 31) < zv < 2 ** 31 else "z-out-of-range"
                 for meth in ("", "W"):
                     for tail in ("", "m1c9"):
-                        if quick and meth and tail:
+                        if quick and (bool(meth) != bool(tail) or (meth and g in GENERAL_BAD)):
                             continue
                         core_ = meth + "z" + zt + tail
                         res.append((g + "+" + core_, f"{gl}/{zl}"))
